@@ -82,7 +82,7 @@ def pair_spec():
     # leveraged / short children on jumpy prices: the definition may lose more than its capital, alone and inside the tree alike
     from . import c16
 
-    lev = c16.run_spec(kinds=("nested",)).map(lambda sp: {k: v for k, v in sp.items() if k not in ("kind", "carry", "two_step", "ruinous_fee", "hedge_secs")})
+    lev = c16.run_spec(kinds=("nested",)).map(lambda sp: {k: v for k, v in sp.items() if k not in ("kind", "carry", "two_step", "ruinous_fee", "hedge_secs", "exact_zero")})
     return st.one_of(two, two, three, lev)
 
 
